@@ -266,10 +266,22 @@ func (in *c05Inst) payTx(n *wNode, ids []uint64, tag uint32, variant string, cha
 		outs = append(outs, sim.BtcOut{Value: v, Script: scr})
 		vals = append(vals, uint64(v))
 	}
-	if change || variant == "tx:two-extra-outputs" || variant == "tx:change-to-other-key" {
+	if change || variant == "tx:two-extra-outputs" || variant == "tx:change-to-other-key" || variant == "tx:change-other-witness-version" || variant == "tx:change-to-deposit-script" {
 		scr := sim.RefSystemScript(in.relKey)
 		if variant == "tx:change-to-other-key" {
 			scr = sim.RefSystemScript(sim.NewBtcKey("not-the-relayer", false))
+		}
+		if variant == "tx:change-other-witness-version" {
+			// the right program of the current key under the other witness version (anyone-can-spend / unspendable)
+			scr = append([]byte{}, scr...)
+			if scr[0] == 0 {
+				scr[0] = 0x51
+			} else {
+				scr[0] = 0
+			}
+		}
+		if variant == "tx:change-to-deposit-script" {
+			scr = sim.RefDepositScriptV0(in.relKey, make([]byte, 20))
 		}
 		outs = append(outs, sim.BtcOut{Value: 4242, Script: scr})
 		if variant == "tx:two-extra-outputs" {
@@ -646,7 +658,7 @@ func (in *c05Inst) illFormed(n *wNode, path []wOp) {
 		procSets = append(procSets, []uint64{1, 2})
 	}
 	for _, ids := range procSets {
-		for _, v := range []string{"tx:other-script", "tx:amount-too-large", "fee:above-max", "tx:two-extra-outputs", "tx:change-to-other-key", "vote:no-quorum", "vote:other-payload", "vote:mark-beyond", "sender:other"} {
+		for _, v := range []string{"tx:other-script", "tx:amount-too-large", "fee:above-max", "tx:two-extra-outputs", "tx:change-to-other-key", "tx:change-other-witness-version", "tx:change-to-deposit-script", "vote:no-quorum", "vote:other-payload", "vote:mark-beyond", "sender:other"} {
 			msg, _, _ := in.processMsg(n, ids, v, false)
 			check(fmt.Sprintf("process%v:%s", ids, v), msg, nil)
 		}
@@ -661,7 +673,7 @@ func (in *c05Inst) illFormed(n *wNode, path []wOp) {
 		if !open {
 			continue
 		}
-		for _, v := range []string{"fee:not-higher", "fee:above-max", "tx:identical", "tx:other-script", "tx:amount-too-large", "tx:two-extra-outputs", "tx:change-to-other-key", "vote:no-quorum", "vote:other-payload"} {
+		for _, v := range []string{"fee:not-higher", "fee:above-max", "tx:identical", "tx:other-script", "tx:amount-too-large", "tx:two-extra-outputs", "tx:change-to-other-key", "tx:change-other-witness-version", "tx:change-to-deposit-script", "vote:no-quorum", "vote:other-payload"} {
 			msg, _, _, _ := in.replaceMsg(n, pid, v)
 			check(fmt.Sprintf("replace:%s", v), msg, nil)
 		}
